@@ -4,3 +4,8 @@ from checks import svcommon
 
 def run(ctx):
     svcommon.run(ctx, "C05")
+
+
+def run(ctx, _inner=run):     # + T5-race (lib/racetie.py): data-race freedom, the assumption under every interleaving model; also re-runs its replay files
+    from lib import racetie
+    return racetie.stage(ctx, _inner, ["timermap", "server"])
